@@ -22,7 +22,11 @@ IsQi(i) == i % 2 = 0
 (* lexicographic order and distance of instants <<jdn, sec>> *)
 InstLess(a, b) == a[1] < b[1] \/ (a[1] = b[1] /\ a[2] < b[2])
 InstLeq(a, b) == a = b \/ InstLess(a, b)
-InstDiff(a, b) == (b[1] - a[1]) * 86400 + (b[2] - a[2])     \* seconds from a to b (|days| small)
+(* seconds from a to b; saturates at +-2*10^9 beyond 20,000 days (32-bit integers in TLC: an instant that is wrong by
+   centuries must fail a clause, not overflow the tool) *)
+InstDiff(a, b) == LET dd == b[1] - a[1] IN
+                  IF dd > 20000 THEN 2000000000 ELSE IF dd < -20000 THEN -2000000000
+                  ELSE dd * 86400 + (b[2] - a[2])
 
 MinGap == 1261440      \* 14.6 days in seconds
 MaxGap == 1365120      \* 15.8 days in seconds
